@@ -112,7 +112,7 @@ impl<T: ClusterKey> TopologyManager<T> {
         bucket_count: u16,
         replication_factor: u8,
     ) -> HashSet<PartitionId> {
-        let effective_replication_factor = replication_factor.min(total_node_count as u8) as usize;
+        let effective_replication_factor = (replication_factor as usize).min(total_node_count);
 
         // First, find which buckets this node owns
         let mut assigned_buckets = HashSet::new();
@@ -152,7 +152,7 @@ impl<T: ClusterKey> TopologyManager<T> {
         // Use the same bucket logic as assigned_partitions
         let bucket_id = partition_id % bucket_count;
         let primary_node = bucket_id as usize % total_node_count;
-        let effective_replication_factor = replication_factor.min(total_node_count as u8) as usize;
+        let effective_replication_factor = (replication_factor as usize).min(total_node_count);
 
         for replica_offset in 0..effective_replication_factor {
             let replica_node_index = (primary_node + replica_offset) % total_node_count;
